@@ -12,7 +12,8 @@ fn annotations(i: usize) -> Option<Vec<String>> {
         0 => None,
         1 => Some(vec!["#[derive(AsnType, Debug, Clone, Decode, Encode, PartialEq, Eq, Hash, PartialOrd, Ord)]".into()]),
         2 => Some(vec!["#[derive(AsnType, Debug, Clone, Decode, Encode, PartialEq, Eq, Hash)]".into(), "#[cfg_attr(any(), verif_marker)]".into()]),
-        _ => Some(vec!["#[derive(AsnType, Debug, Clone, Decode, Encode, PartialEq, Eq, Hash)]".into(), "#[derive(Debug, Clone, PartialOrd)]".into()]),
+        // a required derive (Debug, Clone) and a non-required one (Eq) named on two lines: each must come out once
+        _ => Some(vec!["#[derive(AsnType, Debug, Clone, Decode, Encode, PartialEq, Eq, Hash)]".into(), "#[derive(Debug, Clone, Eq, PartialOrd)]".into()]),
     }
 }
 
@@ -279,6 +280,10 @@ fn judge(coord: &str, lo: &Point, hi: &Point, a: &Items, b: &Items) -> Vec<(Stri
                             break;
                         }
                     }
+                    // no derive at all may be emitted twice (conflicting impls)
+                    if let Some(d) = it.attrs.derives.iter().find(|d| !REQUIRED.contains(&d.as_str()) && it.attrs.derives.iter().filter(|x| x == d).count() > 1) {
+                        out.push(("derive-duplicated".into(), format!("{}: derive `{d}` is emitted more than once", describe(k, it))));
+                    }
                 }
             }
         }
@@ -305,10 +310,32 @@ fn opts() -> GenOpts {
     GenOpts { modules: (1, 3), assigns: (2, 9), max_depth: 3, max_comps: 5, qualified_refs: true, any: true, ..GenOpts::default() }
 }
 
+/// CHOICE types whose alternatives have payload types that are equal, or differ only in a wrapper (SEQUENCE OF / SET OF,
+/// module qualification, Box through recursion): the `From` impls of `generate_from_impls` are keyed on the payload type.
+fn payload_template(seed: u64, idx: u64) -> Vec<String> {
+    let mut rng = Rng::for_case(seed, 1919, idx);
+    const POOL: [&str; 12] = ["Tb", "Mb.Tb", "SEQUENCE OF Mb.Tb", "SEQUENCE OF Tb", "SET OF Tb", "Ub", "SEQUENCE OF Ub", "INTEGER", "INTEGER", "BOOLEAN", "SEQUENCE OF INTEGER", "Cq1"];
+    let mut picks: Vec<usize> = (0..POOL.len()).collect();
+    rng.shuffle(&mut picks);
+    let k = 2 + rng.below(5);
+    let alts: Vec<String> = picks[..k].iter().enumerate().map(|(i, p)| format!("cq{i} {}", POOL[*p])).collect();
+    vec![
+        format!("Ma DEFINITIONS AUTOMATIC TAGS ::= BEGIN IMPORTS Tb, Ub FROM Mb;\nCq1 ::= CHOICE {{ {}, cq9 NULL }}\nEND\n", alts.join(", ")),
+        "Mb DEFINITIONS AUTOMATIC TAGS ::= BEGIN\nTb ::= BOOLEAN\nUb ::= SEQUENCE { x INTEGER }\nEND\n".to_string(),
+    ]
+}
+
 fn check_input(seed: u64, idx: u64, points: &[Point], es: &[(Point, Point, &'static str)], rep: &mut Report) {
-    let set = gen::random_set(seed, 1900, idx, &opts());
-    let origin = format!("G(seed={seed},salt=1900,idx={idx})");
-    let srcs = set.render_each();
+    // every fourth input is a payload-type template
+    let (srcs, origin, set_hash) = if idx % 4 == 3 {
+        let s = payload_template(seed, idx);
+        let h = hash_str(&s.join("|"));
+        (s, format!("payload-template(seed={seed},idx={idx})"), h)
+    } else {
+        let set = gen::random_set(seed, 1900, idx, &opts());
+        let h = hash_of(&set);
+        (set.render_each(), format!("G(seed={seed},salt=1900,idx={idx})"), h)
+    };
     let mut outs: BTreeMap<Point, Option<Items>> = BTreeMap::new();
     for p in points {
         let run = comp::rasn(&srcs, &p.cfg());
@@ -338,7 +365,7 @@ fn check_input(seed: u64, idx: u64, points: &[Point], es: &[(Point, Point, &'sta
         }
     }
     if any {
-        rep.nontrivial.insert(hash_of(&set));
+        rep.nontrivial.insert(set_hash);
         if rep.samples.len() < 3 && idx % 17 == 2 {
             rep.sample(json!({"origin": origin, "asn1": one_line(&srcs.join(" "), 300), "configurations": points.len(), "edges": es.len()}));
         }
